@@ -295,6 +295,36 @@ REACH = ["C15.event-stream-well-formed", "C15.all-formatters-see-the-same-stream
          "C15.json-step-status-attached-to-its-own-step", "C15.plain-shows-each-processed-step-once"]
 
 
+def h_shared_stream(sx):
+    """More formatters than outfiles: the formatters without an own outfile share behave's default stdout opener; all of
+    them get their events and their single close, the run ends normally."""
+    from behave.formatter._registry import make_formatters
+    from behave.formatter.base import StreamOpener
+    w, flags = build_world(sx)
+    k = sx.choice("lineup", [0, 1, 2])
+    names = [["json", "plain", "progress2"], ["plain", "progress3", "progress"], ["json", "plain"]][k if isinstance(k, int) else k.concretize()]
+    first = io.StringIO()
+    w.config.format = list(names)
+    w.config.outputs = [StreamOpener(stream=first)]       # only the first formatter has its own stream
+    w.config.color = "off"
+    rec = Rec()
+    w.runner.formatters = list(make_formatters(w.config, w.config.outputs)) + [rec]
+    w.run()
+    sx.check(w.escaped is None, "C15.no-exception", detail=lambda m: {"lineup": names, "escaped": repr(w.escaped)})
+    if w.escaped is not None:
+        return {"escaped": repr(w.escaped)}
+    probs = check_grammar(rec.ev)
+    sx.check(not probs, "C15.event-stream-well-formed", detail=lambda m: {"lineup": names, "problems": probs})
+    if names[0] == "json":
+        try:
+            json.loads(first.getvalue())
+            ok = True
+        except ValueError:
+            ok = False
+        sx.check(ok, "C15.json-is-valid", detail=lambda m: {"lineup": names, "text": first.getvalue()[:300]})
+    return {"lineup": names, "events": len(rec.ev)}
+
+
 def h_same_names(sx):
     """Scenarios that share keyword and name (two 'Scenario: Login', unnamed scenarios): every one of them is in the JSON
     report, in run order, with its own status and steps."""
@@ -347,6 +377,9 @@ def jobs(tier, seed):
     if tier == "thorough":
         shapes.update({"3sc": ([F([S(2), S(2), S(1)])], {"out_dom": {"*": [0, 5]}, "stop": "sym", "dry_run": "sym"}),
                        "rule-outline": ([F([S(1), R([O(1, [(2, [])]), S(1)], bg=1)])], {"out_dom": D})})
+    js.append(Job("shared-default-stream", "props.c15:h_shared_stream",
+                  {"shapes": [F([S(1), S(1)])], "opts": {"out_dom": {"*": [0, 1]}, "undef": False}},
+                  reach=["C15.event-stream-well-formed"], min_paths=8, cost=100, validate=12))
     js.append(Job("same-names", "props.c15:h_same_names",
                   {"shapes": [F([S(1, name="Login"), S(1, name="Login"), S(1), R([S(1, name="Login"), S(1, name="Login")])])],
                    "opts": {"out_dom": {"*": [0, 1]}, "undef": False}},
